@@ -9,6 +9,10 @@ correspondence   : the real SpaceChargeKick._deposit_charge_on_grid is called on
 oracle           : metamorphic relations on full SpaceChargeKick.track runs (float64): untouched positions/charges/survival/energy,
                    dp ~ charge, dp ~ effect_length, permutation equivariance, zero charge, lost particles, vectorised == loop,
                    outward push; thorough tier: uniformly charged sphere vs the analytic field.
+                   hidden state: ONE element instance tracks a sequence of different beams (same coordinates at other energies, other
+                   charges, other sizes, a vectorised beam, the first beam again); every result must equal what a freshly constructed
+                   element with the same parameters returns (1e-12 of the kick), and the element's parameters must not change.
+                   Exceptions raised by the implementation are observations (clause "raises"), never a crash of the check.
 """
 import json
 import math
@@ -403,6 +407,74 @@ def oracle_vectorised(run, spec):
     return bad
 
 
+HISTORY_REL = 1e-12   # reused element vs fresh element: the same arithmetic on the same numbers (bit-equal on the present code)
+
+
+def history_beams(spec):
+    """the sequence of beams one element instance sees: (label, beam).  Same particle coordinates (hence the same sigma-based grid
+    geometry) at other reference energies, other charges, other sizes, a vectorised beam, and the first beam again."""
+    beam = build_beam(spec)
+    P = beam.particles
+    wide = P.clone()
+    wide[:, :6] *= torch.tensor([1.5, 1.0, 0.75, 1.0, 2.0, 1.0], dtype=D)
+    B = 2
+    vb = with_(beam, particles=P.unsqueeze(0).repeat(B, 1, 1), energy=torch.tensor([1.0, 2.0], dtype=D) * beam.energy,
+               particle_charges=beam.particle_charges.unsqueeze(0).repeat(B, 1),
+               survival_probabilities=beam.survival_probabilities.unsqueeze(0).repeat(B, 1))
+    return [("first beam", beam),
+            ("same coordinates, energy x 3.7", with_(beam, energy=beam.energy * 3.7)),
+            ("same coordinates, energy x 0.31", with_(beam, energy=beam.energy * 0.31)),
+            ("same coordinates and energy, charges x 2.5", with_(beam, particle_charges=beam.particle_charges * 2.5)),
+            ("same coordinates, energy x 1.9, charges x -0.5", with_(beam, energy=beam.energy * 1.9, particle_charges=beam.particle_charges * -0.5)),
+            ("other bunch sizes (x 1.5, y 0.75, tau 2)", with_(beam, particles=wide)),
+            ("vectorised beam: same coordinates at energies x 1 and x 2", vb),
+            ("same coordinates, energy x 2 (after the vectorised beam)", with_(beam, energy=beam.energy * 2.0)),
+            ("first beam again", beam)]
+
+
+def oracle_history(run, spec):
+    """no hidden state: what an element returns depends on its parameters and the incoming beam only, not on the beams it has
+    tracked before.  One instance tracks the whole sequence; each result is compared with a freshly constructed element's."""
+    bad = []
+    el = build_kick(spec)
+    feats0 = {k: getattr(el, k) for k in ("grid_shape", "grid_extend_x", "grid_extend_y", "grid_extend_tau") if hasattr(el, k)}
+    first = None
+    for step, (label, beam) in enumerate(history_beams(spec)):
+        before = beam.particles.clone()
+        got = el.track(beam)
+        want = build_kick(spec).track(beam)
+        run.count("history_steps")
+        if not torch.equal(beam.particles, before):
+            bad.append(("history_incoming_modified", {"step": step, "beam": label}))
+        if got.particles.shape != want.particles.shape or not torch.isfinite(got.particles).all():
+            bad.append(("history_reused_element_equals_fresh_element", {"step": step, "beam": label, "shape": list(got.particles.shape),
+                                                                         "finite": bool(torch.isfinite(got.particles).all())}))
+            continue
+        kick = want.particles - beam.particles
+        for i in (0, 1, 2, 3, 4, 5, 6):
+            sc = float(kick[..., i].abs().max())
+            dev = float((got.particles[..., i] - want.particles[..., i]).abs().max())
+            if dev > HISTORY_REL * sc + floor_of(beam, i):
+                bad.append(("history_reused_element_equals_fresh_element",
+                            {"step": step, "beam": label, "coordinate": i, "max_abs_dev": dev, "max_abs_kick_of_fresh_element": sc,
+                             "rel_dev": dev / max(sc, 1e-300), "bit_equal": False}))
+        if not (torch.equal(got.energy, want.energy) and torch.equal(got.particle_charges, want.particle_charges)
+                and torch.equal(got.survival_probabilities, want.survival_probabilities)):
+            bad.append(("history_reused_element_equals_fresh_element", {"step": step, "beam": label, "what": "energy, charges or survival differ"}))
+        if step == 0:
+            first = got.particles.clone()
+        elif label == "first beam again":
+            # idempotence: tracking the same beam twice through the same element gives the same result
+            for i in (1, 3, 5):
+                sc = float(kick[..., i].abs().max())
+                dev = float((got.particles[..., i] - first[..., i]).abs().max())
+                if dev > HISTORY_REL * sc + floor_of(beam, i):
+                    bad.append(("history_same_beam_twice_same_result", {"coordinate": i, "max_abs_dev": dev, "rel_dev": dev / max(sc, 1e-300)}))
+    if not torch.equal(el.effect_length, build_kick(spec).effect_length) or any(getattr(el, k) != v for k, v in feats0.items()):
+        bad.append(("history_element_parameters_changed", {"effect_length": el.effect_length.tolist()}))
+    return bad
+
+
 def oracle_outward(run, seed, n=3000):
     """like charges repel: in a symmetric Gaussian bunch the momentum change points away from the centre (statistically)."""
     import cheetah
@@ -476,7 +548,7 @@ def main(tier, replay=None):
                        "beyond the grid, dyadic charges and survival values incl. 0, batch of 1 or 2: _deposit_charge_on_grid (whole grid, exact) and "
                        "_compute_forces with a known integer force grid (1e-12) vs the Coq model; non-trivial = some particle with non-zero weight "
                        "inside the grid. (b) full kicks in float64 on random Gaussian bunches (40..400 particles, gamma 10..2000, grids 8..16 per "
-                       "axis, partial survival in 40%): metamorphic relations.")
+                       "axis, partial survival in 40%): metamorphic relations, and the same bunch re-used in a 9-step history on one element instance.")
     if replay:
         return do_replay(run, replay)
     proof_ok = run.proof_stage()
@@ -519,6 +591,12 @@ def main(tier, replay=None):
                 seen_f50.append(detail)
             else:
                 new_bad.append(dict(kind="kick", clause=clause, detail=detail, spec=spec))
+        try:
+            items = oracle_history(run, spec)
+        except Exception as ex:  # noqa
+            items = [("raises", repr(ex)[:300])]
+        for clause, detail in items:
+            new_bad.append(dict(kind="history", clause=clause, detail=detail, spec=spec))
     try:
         oseed, on = run.rng.randrange(1 << 30), (6000 if thorough else 2500)
         res, bad = oracle_outward(run, seed=oseed, n=on)
@@ -557,6 +635,8 @@ def main(tier, replay=None):
                               "outward push (sign agreement >= 0.8, correlation >= 0.5 on a Gaussian bunch)",
                               "uniformly charged sphere vs analytic field, slope within 15% (thorough tier only; measured 1.2%)",
                               "vectorised beam == per-sample tracking (1e-6)",
+                              "no hidden state: one element instance tracking 9 different beams in a row (other energies at equal coordinates, other "
+                              "charges, other sizes, vectorised, first beam again) == freshly constructed elements (1e-12 of the kick); same beam twice",
                               "vectorised effect_length with a non-vectorised beam raises (finding F21 of C04): not generated"]
 
     if new_bad:
@@ -574,6 +654,13 @@ def main(tier, replay=None):
     return run.finish("partial")
 
 
+def guarded(fn):
+    try:
+        return fn()
+    except Exception as ex:  # noqa
+        return [("raises", repr(ex)[:300])]
+
+
 def do_replay(run, path):
     r = json.loads(open(path).read())
     kind = r.get("kind")
@@ -582,7 +669,9 @@ def do_replay(run, path):
         print("replay:", "property holds on this input" if not items else f"property FAILS on this input: {items[:2]}")
         return 1 if items else 0
     if kind == "kick":
-        items = oracle_full(run, r["spec"]) + oracle_vectorised(run, r["spec"])
+        items = guarded(lambda: oracle_full(run, r["spec"]) + oracle_vectorised(run, r["spec"]))
+    elif kind == "history":
+        items = guarded(lambda: oracle_history(run, r["spec"]))
     elif kind == "offaxis":
         zero_kick, pushed_apart, res = oracle_offaxis(run, r["detail"].get("shift_in_sigma", 10.0))
         items = [] if pushed_apart else [("offaxis", res)]
